@@ -353,6 +353,17 @@ def check_op(prog, rep, m, name):
                 'the flat per-cell list is row-major: it must be reshaped to (-1, number of columns); ' + why)
     if not rs:
         rep.add('L5', f, name, 'reshape of the per-cell list', f.node.lineno, None, 'no reshape found')
+    # ... and returned as computed: the per-cell values (Python numbers gathered in a list) are not cast on the way out - a
+    # cast to the layers' own dtype wraps sums of narrow integers and turns the NaN of a cell with missing data into a number
+    holders = {n.targets[0].id for n in f.own_nodes() if isinstance(n, ast.Assign) and isinstance(n.targets[0], ast.Name) and
+               isinstance(n.value, ast.Call) and short(n.value) in ('array', 'asarray', 'reshape', 'DataArray')}
+    for c in calls(f.node):
+        if short(c) == 'astype' and isinstance(c.func, ast.Attribute) and any(isinstance(x, ast.Name) and x.id in holders for x in ast.walk(c.func.value)):
+            dt = norm(c.args[0]) if c.args else '?'
+            wide = dt in ('float', 'np.float64', "'f8'", "'float64'", 'numpy.float64')
+            rep.add('L5', f, name, norm(c)[:120], c.lineno, wide,
+                    'the result array holds the per-cell values as computed: casting it to %s narrows sums / extrema of narrow layers '
+                    '(200 + 100 + 50 in uint8 is 94) and cannot hold the NaN of cells with missing data' % dt)
     # ---- ref list row-major
     if 'ref_var' in f.params:
         # the reference list: the local built from raster[ref_var] (whatever it is called)
